@@ -436,6 +436,91 @@ Proof.
   intros HN HV HS. apply (assembly_is_PtKP 0%R Rplus Rplus_comm Rplus_assoc' Rplus_0_l); eauto using valid_conns_in_range.
 Qed.
 
+(* ------------------------------------------------------------------ gather semantics of evaluate_on_block / integrate_over_block *)
+Section GatherProofs.
+  Context {V : Type} (vzero : V) (vadd vmul : V -> V -> V).
+  Hypothesis vadd_comm : forall x y, vadd x y = vadd y x.
+  Hypothesis vadd_assoc : forall x y z, vadd x (vadd y z) = vadd (vadd x y) z.
+  Hypothesis vadd_0_l : forall x, vadd vzero x = x.
+  Context {E : Type} (edef : E).
+  Variables kernel vols : E -> list V.
+  (* every element has as many kernel values as quadrature-point volumes (nq) *)
+  Hypothesis same_nq : forall e, length (kernel e) = length (vols e).
+
+  Lemma vdot_app a a' c c' : length a = length c ->
+    vdot vzero vadd vmul (a ++ a') (c ++ c') = vadd (vdot vzero vadd vmul a c) (vdot vzero vadd vmul a' c').
+  Proof.
+    intros HL. unfold vdot.
+    assert (E1 : combine (a ++ a') (c ++ c') = combine a c ++ combine a' c').
+    { revert c HL. induction a as [|x a IH]; intros [|y c] HL; simpl in *; try discriminate; [reflexivity|]. rewrite IH by congruence. reflexivity. }
+    rewrite E1, map_app. apply (msum_app vzero vadd vadd_assoc vadd_0_l).
+  Qed.
+
+  (* the block integral is the sum, in block order, of the energies of the listed elements: each element's values meet its OWN volumes *)
+  Lemma integrate_over_block_sum elems block :
+    integrate_over_block vzero vadd vmul edef kernel vols elems block
+    = block_energy vzero vadd (element_energy vzero vadd vmul edef kernel vols elems) block.
+  Proof.
+    unfold integrate_over_block, evaluate_on_block, gather, block_energy, element_energy.
+    induction block as [|i block IH]; [reflexivity|].
+    cbn [map concat fold_right]. rewrite vdot_app by apply same_nq. rewrite IH. reflexivity.
+  Qed.
+  (* hence it does not depend on the order in which the block lists its elements ... *)
+  Lemma integrate_over_block_perm elems block block' : Permutation block block' ->
+    integrate_over_block vzero vadd vmul edef kernel vols elems block
+    = integrate_over_block vzero vadd vmul edef kernel vols elems block'.
+  Proof.
+    intros HP. rewrite !integrate_over_block_sum. unfold block_energy.
+    apply (msum_perm vzero vadd vadd_comm vadd_assoc). apply Permutation_map, HP.
+  Qed.
+  (* ... and blocks that list every element exactly once (any order inside and across blocks) add up to the integral over
+     slice(None) *)
+  Lemma fold_integrate_eq elems blocks : forall acc,
+    fold_left (fun a ids => vadd a (integrate_over_block vzero vadd vmul edef kernel vols elems ids)) blocks acc
+    = fold_left (fun a ids => vadd a (block_energy vzero vadd (element_energy vzero vadd vmul edef kernel vols elems) ids)) blocks acc.
+  Proof.
+    induction blocks as [|ids blocks IH]; intros acc; [reflexivity|].
+    cbn [fold_left]. rewrite integrate_over_block_sum. apply IH.
+  Qed.
+  Lemma integrate_multi_block elems blocks :
+    Permutation (concat blocks) (seq 0 (length elems)) ->
+    fold_left (fun acc ids => vadd acc (integrate_over_block vzero vadd vmul edef kernel vols elems ids)) blocks vzero
+    = integrate_over_block vzero vadd vmul edef kernel vols elems (seq 0 (length elems)).
+  Proof.
+    intros HP.
+    pose proof (multi_block_energy_partition vzero vadd vadd_comm vadd_assoc vadd_0_l
+                  (element_energy vzero vadd vmul edef kernel vols elems) blocks (length elems) HP) as H.
+    unfold multi_block_energy, single_block_energy in H. rewrite integrate_over_block_sum, <- H. apply fold_integrate_eq.
+  Qed.
+  (* evaluate_on_block returns, row k, the kernel of element block[k] *)
+  Lemma evaluate_on_block_rows elems block k i : nth_error block k = Some i ->
+    nth_error (evaluate_on_block edef kernel elems block) k = Some (kernel (nth i elems edef)).
+  Proof.
+    intros H. unfold evaluate_on_block, gather. rewrite map_map. rewrite nth_error_map, H. reflexivity.
+  Qed.
+End GatherProofs.
+
+Lemma gather_full :
+  forall (E : Type) (edef : E) (kernel vols : E -> list R), (forall e, length (kernel e) = length (vols e)) ->
+  (forall elems block,
+      integrate_over_block 0%R Rplus Rmult edef kernel vols elems block
+      = block_energy 0%R Rplus (element_energy 0%R Rplus Rmult edef kernel vols elems) block)
+  /\ (forall elems block block', Permutation block block' ->
+      integrate_over_block 0%R Rplus Rmult edef kernel vols elems block
+      = integrate_over_block 0%R Rplus Rmult edef kernel vols elems block')
+  /\ (forall elems blocks, Permutation (concat blocks) (seq 0 (length elems)) ->
+      fold_left (fun acc ids => (acc + integrate_over_block 0%R Rplus Rmult edef kernel vols elems ids)%R) blocks 0%R
+      = integrate_over_block 0%R Rplus Rmult edef kernel vols elems (seq 0 (length elems)))
+  /\ (forall elems block k i, nth_error block k = Some i ->
+      nth_error (evaluate_on_block edef kernel elems block) k = Some (kernel (nth i elems edef))).
+Proof.
+  intros E edef kernel vols Hnq. repeat split.
+  - intros. apply (integrate_over_block_sum 0%R Rplus Rmult Rplus_assoc' Rplus_0_l); assumption.
+  - intros. apply (integrate_over_block_perm 0%R Rplus Rmult Rplus_comm Rplus_assoc' Rplus_0_l); assumption.
+  - intros. apply (integrate_multi_block 0%R Rplus Rmult Rplus_comm Rplus_assoc' Rplus_0_l); assumption.
+  - intros. apply evaluate_on_block_rows; assumption.
+Qed.
+
 Lemma blocks_partition_full :
   (* states / element Hessians: blocks that cover all elements (any order, overlaps allowed, same per-element function) *)
   (forall (W : Type) (f : nat -> W) blocks base,
